@@ -633,7 +633,33 @@ func ruleBufRelease(c *Ctx, rule string) {
 				ngo++
 				// the buffer argument derives from a pool Get in the same loop iteration
 				var get *ssa.Call
-				okOrigin, _ := originsWithin(g.Call.Args[1], func(v ssa.Value) bool {
+				var fromPool func(v ssa.Value) bool
+				fromPool = func(v ssa.Value) bool {
+					for i := 0; i < 3; i++ { // reslicings of the buffer
+						if sl, ok := v.(*ssa.Slice); ok {
+							v = sl.X
+						}
+					}
+					// a same-package helper all of whose returns are pool buffers
+					if call, ok := v.(*ssa.Call); ok {
+						if f := call.Call.StaticCallee(); f != nil && len(f.Blocks) > 0 && defaultInline(fn, f) {
+							nret := 0
+							for _, hb := range f.Blocks {
+								if ret, ok := hb.Instrs[len(hb.Instrs)-1].(*ssa.Return); ok && len(ret.Results) == 1 {
+									nret++
+									inner := get
+									if ok2, _ := originsWithin(ret.Results[0], fromPool); !ok2 {
+										return false
+									}
+									get = inner
+								}
+							}
+							if nret > 0 {
+								get = call // the helper call marks where the buffer is taken
+								return true
+							}
+						}
+					}
 					if sl, ok := v.(*ssa.Slice); ok {
 						v = sl.X
 						if sl2, ok := v.(*ssa.Slice); ok {
@@ -651,7 +677,8 @@ func ruleBufRelease(c *Ctx, rule string) {
 						}
 					}
 					return false
-				})
+				}
+				okOrigin, _ := originsWithin(g.Call.Args[1], fromPool)
 				if !okOrigin || get == nil {
 					bad = append(bad, fmt.Sprintf("the buffer handed to the handler goroutine at %s does not come from bufpool.Get()", c.P.InstrPos(in)))
 					continue
